@@ -496,6 +496,17 @@ class _HCRS:
     def from_epsg(cls, n):
         return cls(f"EPSG:{n}")
 
+    @classmethod
+    def from_dict(cls, d):
+        return cls(str(d["spec"]).upper())
+
+    @classmethod
+    def from_wkt(cls, w):
+        return cls(str(w).upper())
+
+    def to_wkt(self, *a, **kw):
+        return self.spec
+
     def __str__(self):
         return self.spec
 
@@ -518,7 +529,33 @@ class _HTransformer:
         return cls(a, b, always_xy)
 
 
-def h_transformer_step():
+class _WktOnly:
+    """an object of another library that only offers to_wkt() (and is not hashable)"""
+
+    __hash__ = None  # type: ignore[assignment]
+
+    def __init__(self, spec):
+        self._spec = spec
+
+    def to_wkt(self):
+        return self._spec
+
+
+def _via(route, spec_text):
+    """the same specification handed to CRS() as a string, a mapping, a projection-library object
+    or a foreign object with to_wkt()"""
+    if route == "str":
+        return spec_text
+    if route == "dict":
+        return {"spec": spec_text}
+    if route == "obj":
+        return _HCRS(spec_text)
+    if route == "wkt_object":
+        return _WktOnly(spec_text)
+    raise ValueError(route)
+
+
+def h_transformer_step(route="str"):
     """one step from a state constructed directly: the CRS cache is full (at its capacity if it
     has one, else 24 entries, all wrappers dropped so only the library keeps the objects alive),
     the transformer cache holds an entry for a symbolic pair of cached objects; then a CRS is
@@ -555,9 +592,12 @@ def h_transformer_step():
         # the step: one or two constructions from unseen specifications
         m = _ix(Int("new_specs", 0, 5))
         for k in range(m):
-            CRS(spec(n + k))
+            c_ = CRS(_via(route, spec(n + k)))
+            # ... each used for a transformer and dropped again: its address may come back
+            c_.transformer_to_crs(CRS(spec(d)), always_xy=xy)
+            del c_
         gc.collect()
-        fresh = CRS(spec(n + 10))
+        fresh = CRS(_via(route, spec(n + 10)))
         other = CRS(spec(d))
         tr = crs_mod._make_crs_transform(fresh._crs, other._crs, always_xy=xy)
         prove("transformer_is_for_the_requested_pair", tr.src_spec == spec(n + 10) and tr.dst_spec == spec(d) and tr.always_xy == xy)
@@ -735,8 +775,12 @@ def h_geometry_state(kind, with_z):
 
         from shapely.geometry import shape
 
+        import math as _m
+
         P = [(Real(f"x{k}"), Real(f"y{k}")) + ((Real(f"z{k}"),) if with_z else ()) for k in range(n)]
-        P = [tuple(float(k_ * 3 + c_) + 0.001 * float(v) for c_, v in enumerate(p)) for k_, p in enumerate(P)]  # spread: valid rings
+        # spread so that the rings are valid; magnitudes below 1 with digits to the last place (a text
+        # rendering with fewer than 17 significant digits would not bring these back)
+        P = [tuple((0.9 - 0.1 * (k_ // 3)) * f(2.0 * (k_ % 3) + 0.30000000000000004 + 1e-3 * float(v)) / (1 + 2 * (k_ // 3)) for f, v in zip((_m.cos, _m.sin, _m.tan), p)) for k_, p in enumerate(P)]
         try:
             g = gm.Geometry(shape(_gj(kind, [p[:2] for p in P])), "epsg:4326")
             h = pickle.loads(pickle.dumps(g))
@@ -746,7 +790,24 @@ def h_geometry_state(kind, with_z):
         prove("state_is_rebuilt", h == g and h.geom_type == g.geom_type)
         return
     P = [(Real(f"x{k}"), Real(f"y{k}")) + ((Real(f"z{k}"),) if with_z else ()) for k in range(n)]
-    state = {"geom": _gj(kind, [list(p) for p in P]), "crs": "epsg:4326"}
+    gj0 = _gj(kind, [list(p) for p in P])
+
+    class _ShapelyGeom:
+        """what Geometry holds: the GeoJSON view carries the coordinates as numbers, the text views are renderings"""
+
+        geom_type = gj0["type"]
+        __geo_interface__ = gj0
+        wkt = "<a text rendering of the coordinates>"
+        wkb = b"<a binary rendering>"
+        has_z = with_z
+        is_empty = False
+
+    from odc.geo.crs import CRS as _C
+
+    g0 = gm.Geometry.__new__(gm.Geometry)
+    g0.geom, g0.crs = _ShapelyGeom(), _C("epsg:4326")
+    state = g0.__getstate__()
+    prove("pickle_state_carries_the_coordinates_as_numbers", isinstance(state, dict) and any(v is gj0 or (isinstance(v, dict) and _gj_eq2d(v, gj0)) for v in state.values()))
     built = []
     saved = gm.geometry
 
@@ -775,7 +836,7 @@ def h_geometry_state(kind, with_z):
     finally:
         gm.geometry = saved
     prove("state_is_rebuilt", bool(built) and g.geom == ("shape", len(built)))
-    prove("same_structure_and_xy", _gj_eq2d(state["geom"], built[-1]))
+    prove("same_structure_and_xy", _gj_eq2d(gj0, built[-1]))
     prove("crs_kept", str(g.crs) == "EPSG:4326")
 
 
@@ -885,7 +946,7 @@ OBLIGATIONS = [
        bounds="one CRS with symbolic abstract attributes (see E4), .epsg read or not", stubs=("abstract pyproj (E4)", "_make_crs contract: parsing a printed CRS string back is lossless; 'EPSG:n' gives the authority CRS of code n; the replay pickles real CRS objects built from 9 specifications"), setup=setup_crs),
     Ob("E6_clone", h_clone, fixed(*[dict(tname=t) for t in TYPES]), descr="per type: a value and its unpickled clone (no component shared by identity) are equal, hash equal, share a token",
        functions=tuple(f"{t}.__eq__" for t in TYPES), bounds="symbolic fields as in E1; clone by the __reduce_ex__ protocol (copy.deepcopy) in the symbolic run, by pickle in the replay", setup=setup),
-    Ob("E7_transformer_step", h_transformer_step, fixed(),
+    Ob("E7_transformer_step", h_transformer_step, fixed(dict(route="str"), dict(route="dict"), dict(route="obj"), dict(route="wkt_object")),
        descr="transformer cache keyed by object address: from a directly constructed full-cache state, after constructions from unseen specifications a requested transformer is one built for the requested pair and axis-order flag",
        functions=("odc.geo.crs._make_crs", "odc.geo.crs._make_crs_transform", "odc.geo.crs._make_crs_transform_key", "odc.geo.crs.CRS.transformer_to_crs"),
        bounds="one step from a full CRS cache (its capacity, or 24 entries when unbounded); existing transformer entry for a pair among the oldest entries (0-3 older ones, symbolic); 0-5 new specifications (symbolic); one address-reuse policy (most recently freed first); longer histories are outside the claim",
